@@ -249,8 +249,9 @@ func c16(c *core.Ctx) {
 		if install == nil {
 			c.Fatal("C16.once: no installation of a token instance found in handleOpenSecureChannelResponse")
 		} else {
-			// client edge: If (s.kind == client)
-			var clientEdgeFrom, clientEdgeTo *ssa.BasicBlock
+			// edges that decide `kind == client`: a path is a client path if it takes no contradicting edge
+			type edge struct{ a, b *ssa.BasicBlock }
+			clientYes, clientNo := map[edge]bool{}, map[edge]bool{}
 			clientConst := constOf(c, "uasc", "client")
 			for _, b := range hResp.Blocks {
 				if len(b.Instrs) == 0 {
@@ -261,16 +262,26 @@ func c16(c *core.Ctx) {
 					continue
 				}
 				cmp, neg, ok := ssax.AsCmp(ifi.Cond)
-				if !ok || neg {
+				if !ok {
 					continue
 				}
-				if loadedField(cmp.X).f == kind {
-					if k, ok := ssax.ConstInt(cmp.Y); ok && clientConst != nil && k == *clientConst {
-						if cmp.Op == token.EQL {
-							clientEdgeFrom, clientEdgeTo = b, b.Succs[0]
-						} else if cmp.Op == token.NEQ {
-							clientEdgeFrom, clientEdgeTo = b, b.Succs[1]
-						}
+				x, y := cmp.X, cmp.Y
+				if loadedField(y).f == kind {
+					x, y = y, x
+				}
+				if loadedField(x).f != kind {
+					continue
+				}
+				if k, ok := ssax.ConstInt(y); ok && clientConst != nil && k == *clientConst {
+					op := cmp.Op
+					if neg {
+						op = ssax.NegOp(op)
+					}
+					switch op {
+					case token.EQL:
+						clientYes[edge{b, b.Succs[0]}], clientNo[edge{b, b.Succs[1]}] = true, true
+					case token.NEQ:
+						clientYes[edge{b, b.Succs[1]}], clientNo[edge{b, b.Succs[0]}] = true, true
 					}
 				}
 			}
@@ -280,24 +291,20 @@ func c16(c *core.Ctx) {
 			}
 			isRet := func(in ssa.Instruction) bool { _, ok := in.(*ssa.Return); return ok }
 			key := fname(hResp) + "·client install→go scheduleRenewal"
-			if clientEdgeFrom == nil {
+			if len(clientYes) == 0 {
 				c.Ob("C16.once", key, pos(c, install), false, "no `kind == client` branch found after the installation: renewal is not tied to client channels")
 			} else {
-				// from first instr of client successor: every path to return passes a sched
-				first := clientEdgeTo.Instrs[0]
-				miss := false
-				var tr []ssa.Instruction
-				if !isSched(first) {
-					miss, tr = ssax.Reach(hResp, first, isRet, isSched, nil)
-					if isRet(first) {
-						miss = true
+				// client paths (never taking a `kind != client` edge): every one from the install to a return starts the timer
+				miss, tr := ssax.Reach(hResp, install, isRet, isSched, func(a, b *ssa.BasicBlock) bool { return clientNo[edge{a, b}] })
+				// a client edge is reachable from the install
+				edgeReach := false
+				for e := range clientYes {
+					if r, _ := ssax.Reach(hResp, install, func(in ssa.Instruction) bool { return in == e.b.Instrs[0] }, nil, nil); r {
+						edgeReach = true
 					}
 				}
-				// the client edge must be reachable from the install
-				edgeReach, _ := ssax.Reach(hResp, install, func(in ssa.Instruction) bool { return in == first }, nil, nil)
-				// no two scheds on one path; none on the non-client path
+				// no two scheds on one path; none on a non-client path (never taking a `kind == client` edge)
 				double := false
-				nonClient := false
 				for _, s := range sites {
 					if s.Parent() != hResp {
 						continue
@@ -305,23 +312,21 @@ func c16(c *core.Ctx) {
 					if d, _ := ssax.Reach(hResp, s, isSched, nil, nil); d {
 						double = true
 					}
-					if !ssax.EdgeDominates(clientEdgeFrom, clientEdgeTo, s) {
-						nonClient = true
-					}
 					arg := s.Common().Args[len(s.Common().Args)-1]
 					if !sameObject(arg, installed, c) {
 						c.Ob("C16.once", fname(hResp)+"·scheduleRenewal argument", pos(c, s), false, "renewal is scheduled for "+ssax.Path(arg)+", not for the installed instance")
 					}
 				}
+				nonClient, _ := ssax.Reach(hResp, install, isSched, nil, func(a, b *ssa.BasicBlock) bool { return clientYes[edge{a, b}] })
 				switch {
 				case !edgeReach:
 					c.Ob("C16.once", key, pos(c, install), false, "the client branch is not reachable after the installation")
 				case miss:
-					c.Ob("C16.once", key, pos(c, install), false, "a path through the client branch reaches return without starting the renewal timer: the token would never be renewed", trace(c, tr)...)
+					c.Ob("C16.once", key, pos(c, install), false, "a client path reaches return without starting the renewal timer: the token would never be renewed", trace(c, tr)...)
 				case double:
 					c.Ob("C16.once", key, pos(c, install), false, "two renewal timers can be started on one path")
 				case nonClient:
-					c.Ob("C16.once", key, pos(c, install), false, "a renewal timer is started outside the `kind == client` branch")
+					c.Ob("C16.once", key, pos(c, install), false, "a renewal timer is started on a path that is not a `kind == client` path")
 				default:
 					c.Ob("C16.once", key, pos(c, install), true, "exactly one `go scheduleRenewal(installed)` on every client path")
 				}
@@ -563,6 +568,44 @@ func inBackSlice(v ssa.Value, target ssa.Value) bool {
 
 // timerArgs lists the duration arguments of time.NewTimer / time.After / time.AfterFunc calls in f.
 func timerArgs(f *ssa.Function) []ssa.Value {
+	var out []ssa.Value
+	for _, b := range f.Blocks {
+		for _, in := range b.Instrs {
+			call, ok := in.(ssa.CallInstruction)
+			if !ok {
+				continue
+			}
+			cal := ssax.Callee(call)
+			if cal == nil || cal.Pkg() == nil || cal.Pkg().Path() != "time" {
+				continue
+			}
+			switch cal.Name() {
+			case "NewTimer", "After", "AfterFunc", "Sleep":
+				out = append(out, call.Common().Args[0])
+			}
+		}
+	}
+	// a private helper that arms the timer with one of its parameters: the argument at the call site counts
+	for _, call := range ssax.Calls(f) {
+		if _, isGo := call.(*ssa.Go); isGo {
+			continue
+		}
+		h := call.Common().StaticCallee()
+		if !isPrivateHelper(f, h) || h == f {
+			continue
+		}
+		for _, ta := range timerArgsLocal(h) {
+			for i, p := range h.Params {
+				if i < len(call.Common().Args) && inBackSlice(ta, p) {
+					out = append(out, call.Common().Args[i])
+				}
+			}
+		}
+	}
+	return out
+}
+
+func timerArgsLocal(f *ssa.Function) []ssa.Value {
 	var out []ssa.Value
 	for _, b := range f.Blocks {
 		for _, in := range b.Instrs {
